@@ -20,7 +20,11 @@ from sim import core, canon, ops, histories
 from checks.common import PoolCheck, jcopy, short
 from pool.pool import schema_class
 
-STEPS = ('use', 'use', 'build_again', 'clear_build', 'copy', 'pickle', 'maps_copy')
+STEPS = ('use', 'use', 'build_again', 'clear_build', 'copy', 'pickle', 'maps_copy', 'failed_load_namespace')
+
+BROKEN_XSD = '''<xs:schema xmlns:xs="http://www.w3.org/2001/XMLSchema" targetNamespace="urn:broken" xmlns:b="urn:broken">
+ <xs:element name="e" type="b:Missing"/>
+</xs:schema>'''
 
 FRESH_LOADER = r'''
 import sys, json, pickle
@@ -48,7 +52,7 @@ class C09(PoolCheck):
     LEVEL = 'exploration'
     GROUP = 1
     CASE_TIMEOUT = 180.0
-    FAMILIES = ('multi', 'multi2', 'xsitype', 'keys', 'subst', 'fixed', 'ids', 'assert11', 'wild')
+    FAMILIES = ('multi', 'multi2', 'chameleon', 'xsitype', 'keys', 'subst', 'fixed', 'ids', 'assert11', 'wild')
     RULE = ("case = (family, assembly variant [canonical | list constructor with a permuted order of the extra "
             "sources | build=False + add_schema/import_schema/include_schema in a permuted order + build()], then a "
             "seeded sequence of lifecycle steps [use an operation of the C10 menu, build() again, maps.clear()+build(), "
@@ -83,7 +87,7 @@ class C09(PoolCheck):
         return jcopy(histories.globals_signature(self.entries[item[0]].schema))
 
     def n_cases(self, tier):
-        return 900 if tier == 'quick' else 25000
+        return 600 if tier == 'quick' else 25000
 
     def gen_case(self, rng, index):
         key = rng.choice(self.keys)
@@ -94,6 +98,12 @@ class C09(PoolCheck):
             order = list(fam.extra)
             rng.shuffle(order)
             kind = rng.choice(['list', 'list', 'add', 'add', 'mixed'])
+            assembly = {'kind': kind, 'order': order}
+        elif fam.name == 'chameleon':
+            kind = rng.choice(['list', 'list', 'add', 'import'])
+            order = ['nons.xsd', 'ct.xsd']
+            if rng.random() < 0.6:
+                order.reverse()
             assembly = {'kind': kind, 'order': order}
         elif fam.name == 'multi':
             kind = rng.choice(['canonical', 'list_extra', 'add_extra', 'preimport'])
@@ -132,6 +142,18 @@ class C09(PoolCheck):
         if kind == 'text_source':
             with open(entry.main_path) as fp:
                 return cls(fp.read(), base_url=d)
+        if fam.name == 'chameleon':
+            order = assembly['order']
+            if kind == 'list':
+                return fam.assemble(d, cls, order=order)
+            s = cls(os.path.join(d, order[0]), build=False)
+            p = os.path.join(d, order[1])
+            if kind == 'import':
+                s.import_schema('urn:c' if order[1] == 'ct.xsd' else '', p)
+            else:
+                s.add_schema(p)
+            s.build()
+            return s
         if fam.name == 'multi2':
             order = assembly['order']
             if kind == 'list':
@@ -213,9 +235,24 @@ class C09(PoolCheck):
                     elif stage == 'copy':
                         schema = copy.copy(schema)
                     elif stage == 'maps_copy':
-                        schema.maps.copy()      # must not disturb the original
+                        mc = schema.maps.copy()      # must not disturb the original, and carries its settings
+                        a, b = _settings_view(mc), _settings_view(schema.maps)
+                        if a != b:
+                            raise MapsCopyDiffers(sorted(k for k in set(a) | set(b) if a.get(k) != b.get(k)))
                     elif stage == 'pickle':
                         schema = pickle.loads(pickle.dumps(schema))
+                    elif stage == 'failed_load_namespace':
+                        # a document that passes the meta-schema but cannot be built is offered as a location
+                        # hint and loaded on demand: the failure must be rolled back without a trace
+                        bp = os.path.join(os.path.dirname(e.main_path), 'broken.xsd')
+                        if not os.path.exists(bp):
+                            with open(bp, 'w') as fp:
+                                fp.write(BROKEN_XSD)
+                        schema.maps.loader.locations['urn:broken'] = [bp]
+                        loaded = schema.maps.loader.load_namespace('urn:broken')
+                        counters['failed_load_namespace_returned_%s' % loaded] = 1
+                        schema.maps.loader.locations.pop('urn:broken', None)
+                        schema.maps.loader.missing_locations.discard(bp)
                 stage = 'observe'
                 if case['fresh']:
                     obs = self.fresh_observe(schema, e, case['hashseed'])
@@ -292,6 +329,23 @@ class C09(PoolCheck):
             c = jcopy(case)
             c['assembly']['order'] = c['assembly']['order'][:-1]
             yield c
+
+
+class MapsCopyDiffers(Exception):
+    pass
+
+
+def _settings_view(maps):
+    st = getattr(maps, 'settings', None)
+    out = {}
+    for k in ('base_url', 'allow', 'defuse', 'timeout', 'converter', 'locations', 'use_fallback', 'use_xpath3',
+              'use_meta', 'use_cache', 'uri_mapper', 'opener', 'iterparse', 'loglevel'):
+        try:
+            out[k] = repr(getattr(st, k))
+        except Exception:
+            pass
+    out['validation'] = getattr(maps, 'validation', None)
+    return out
 
 
 def spell(d, name, how):
